@@ -58,6 +58,10 @@ EXPLANATION += ' Added: (R25) cube header writer / reader; (R26) POSCAR writer a
 # --- metadata added after the round-3 refactoring twins
 EXPLANATION += ' R5: the inverse tables are compared as values (any expression form). R6 is decided by the POSCAR writer / VASP header reader pair on a model cell with atoms [H, O, H]. R2: header keys given through `zip(keys, words)` are header keys.'
 # --- end metadata round-3 twins
+# --- metadata added after the round-4 refactoring twins
+TECHNIQUE += '; evaluation of the FCIDUMP record writer'
+EXPLANATION += ' R4: the FCIDUMP integral loops are interpreted on a 3-orbital model whose symmetry-distinct integrals all differ; every printed record `v i j k l` must be the element <ik|jl> of the array (one-based), `v i j 0 0` the one-electron element. R3: range(<expression>, ...) carries the index nature of its start value instead of counting from zero.'
+# --- end metadata round-4 twins
 
 
 def _lev(a, b):
